@@ -403,7 +403,9 @@ pub fn narrow_selection(rng: &mut Rng, s: &Map<String, Value>, drop_pm: u64) -> 
 }
 
 pub fn gen_session_string(rng: &mut Rng) -> String {
-    match rng.usize(8) {
+    match rng.usize(10) {
+        8 => rng.pick(&["x509_san_dns:verifier.example.com", "redirect_uri:https://verifier.example/cb", "did:web:verifier.example", "openid_federation:https://rp.example", "verifier_attestation:rp-7", "x509_hash:Uvo3HtuIxuhC92rShpgqcT3YXwrqRxWEviRiA0OZszk", "decentralized_identifier:did:example:123"]).to_string(),
+        9 => rng.pick(&["https://Verifier.Example.org/", "https://verifier.example.org/cb?x=1#f", "HTTPS://VERIFIER.EXAMPLE.ORG", "verifier.example.org"]).to_string(),
         0 => String::new(),
         1 => "https://verifier.example.org".into(),
         2 => format!("n-{}", rng.next_u64()),
